@@ -470,6 +470,8 @@ def run_seed(case, failures, hsh):
                 numpy.random.rand(prior % 7)
                 r = call()
                 obs_.append((fixtures.norm(r.test_distribution), fixtures.norm(r.quantile), fixtures.norm(r.observed_statistic)))
+                if not isinstance(r.quantile, (tuple, list)):
+                    check_quantile(r, failures, site, rep)
         except Exception as e:
             failures.append(Fail(f'{site}|{type(e).__name__}|seed', f'{type(e).__name__}: {e} seed={s}', rep))
             continue
@@ -488,7 +490,7 @@ def run_inject_multi(case, failures, hsh):
     rates = [0.3, 0.2, 0.5, 1.0]
     mids = rs.midpoints(rates)
     for test in ('S', 'M', 'CL', 'bS', 'bCL', 'Br'):
-        for ns in (1, 2, 3):
+        for ns in (1, 2, 3, 4, 7):
             fc, cat = setup(rates, 'S' if test in ('S', 'bS') else ('M' if test == 'M' else 'CL'), 2)
             # two observed events sit in one bin; binary tests therefore need 1 active cell -> 1 draw per simulation
             ndraw = 1 if test in ('bS', 'bCL', 'Br') else 2
@@ -504,6 +506,7 @@ def run_inject_multi(case, failures, hsh):
             evals += 1
             td = fixtures.norm(r.test_distribution)
             hsh.update(repr(td).encode())
+            check_quantile(r, failures, site, rep)       # every simulation ties with every other (and often with the observation)
             if len(td) != ns or any(x != td[0] for x in td):
                 failures.append(Fail(f'{site}|identical-injected-numbers-give-different-simulations|any', f'{td}', rep))
     return evals, evals, evals
